@@ -3,8 +3,13 @@
    mapper case : inputs  (smap KIND xPREFIX xNAME)              KIND = shttp | srpc
                  observed xRESULT
    route case  : inputs  (sroute KIND (OP ...) (QUERY ...))
-                   OP    = (sreg NS (xGROUP ...) (sstruct xNAME ((xMETHOD xHID) ...)))
-                         | (sreg NS (xGROUP ...) (sfunc xNAME xHID))
+                   OP    = (sreg NS (xGROUP ...) (sstruct xTYPESTRING ((xMETHOD xHID) ...)))
+                         | (sreg NS (xGROUP ...) (sfunc xRUNTIMENAME xHID))
+                           TYPESTRING = reflect.TypeOf(ctrl).String(), RUNTIMENAME =
+                           runtime.FuncForPC(fn).Name(), both taken by the harness; the model
+                           derives the identifier with Router.object_ident
+               or        (srouteq KIND (OP ...) ())   child ran with a logger level that does not
+                           print CRITICAL lines: same, but REG of a fatal run is (sfatal ((xNAME ...) ...))
                          | (sunk NS (xGROUP ...) xHID)             NS = scall | spush
                    QUERY = (NS xNAME)
                  observed (REG (QRES ...))
@@ -41,8 +46,8 @@ Fixpoint methods_of (l : list val) : option (list (bytes * hid)) :=
 Definition item_of (v : val) : option item :=
   match v with
   | VL [t; VB name; VL ms] =>
-      if sym_eqb t "struct" then option_map (IStruct name) (methods_of ms) else None
-  | VL [t; VB name; VB h] => if sym_eqb t "func" then Some (IFunc name h) else None
+      if sym_eqb t "struct" then option_map (IStruct (object_ident name)) (methods_of ms) else None
+  | VL [t; VB name; VB h] => if sym_eqb t "func" then Some (IFunc (object_ident name) h) else None
   | _ => None
   end.
 
@@ -117,7 +122,16 @@ Definition run (inp : val) : option val :=
   | VL [t; kv; VB prefix; VB name] =>
       if sym_eqb t "map" then option_map (fun k => VB (mapper k prefix name)) (kind_of kv) else None
   | VL [t; kv; VL ops; VL qs] =>
-      if sym_eqb t "route" then
+      if sym_eqb t "routeq" then
+        match kind_of kv, ops_of ops with
+        | Some k, Some os =>
+            match run_names k init os [] with
+            | (VL [_; VB _; done], None) => Some (VL [VL [vsym "fatal"; done]; VL []])
+            | (reg, _) => Some (VL [reg; VL []])
+            end
+        | _, _ => None
+        end
+      else if sym_eqb t "route" then
         match kind_of kv, ops_of ops, queries_of qs with
         | Some k, Some os, Some ql =>
             match run_names k init os [] with
